@@ -435,6 +435,17 @@ def proof_phase(ctx, module=None, extra_targets=()):
     return not ctx.broken
 
 
+def proof_phase_extra(ctx, module):
+    """a further Properties module of the same property (e.g. theorems over translated source): its obligations,
+    discharged theorems, axioms and broken obligations are added to ctx"""
+    ctx2 = Ctx(ctx.pid, argv=[]); ctx2.tier = ctx.tier; ctx2.seed = ctx.seed
+    proof_phase(ctx2, module=module)
+    ctx.obligations += ctx2.obligations; ctx.discharged += ctx2.discharged; ctx.axioms.update(ctx2.axioms)
+    ctx.broken += [b for b in ctx2.broken if b not in ctx.broken]
+    ctx.notes += ctx2.notes
+    return not ctx2.broken
+
+
 # --------------------------------------------------------------------------- builds
 
 def cache_dir(key):
